@@ -175,6 +175,9 @@ def observe(c, holders, m):
   for k in snap:
     if k not in m.decl and k not in m.loaded:
       bad.append('_asdict exposes undeclared, never-allowed key %r' % k)
+  for k, val in m.loaded.items():
+    if k not in m.decl and (k not in snap or (type(snap[k]).__name__, repr(snap[k])) != (type(val).__name__, repr(val))):
+      bad.append('_asdict lacks the explicitly allowed undeclared key %r=%r (snapshot has %r)' % (k, val, snap.get(k, '<absent>')))
   return bad
 
 
@@ -224,6 +227,8 @@ def alphabet(tier):
       ['load', [['a', 's']], F, F, 'kw'],
       ['load', [['b', [1]]], T, F, 'dict'],
       ['load', [['u', 3]], T, F, 'dict'],
+      ['load', [['u', 3]], T, T, 'dict'],          # an undeclared key, explicitly allowed: loaded (and kept by save_and_restore)
+      ['load', [['a', 2.0]], T, F, 'kw'],          # equal to 2 but a different value: a later load still overrides
       ['load', [['u', 3], ['a', None]], T, T, 'dict'],
       ['load', [['a', 2], ['b', 2]], F, F, 'dict'],
       ['load_file', ['ok', [['a', 7]]], T, F, 'yaml'],
